@@ -72,6 +72,7 @@ _X.declare("ninf")
 XIntS = _X.create()
 XINT = Ty("XInt", XIntS)
 NONE = Ty("None", None)
+OPAQUE = Ty("Opaque", None)       # result of a call the contract declares opaque (numerics outside the subset): only passed on or compared
 BOUND = Ty("BoundMethod", None)   # `f = obj.method` (a local alias of a method of a local container or object); SV carries .obj (name) and .attr
 EMPTYLIST = Ty("EmptyList", None)   # `[]` whose element type is fixed at first use
 EMPTYDICT = Ty("EmptyDict", None)   # `{}` (a Meta when stored in a metadata table, else an empty Map)
